@@ -23,6 +23,23 @@ META = {
 }
 
 THEOREMS = [
+    "C16_contain_blank",
+    "C16_contain_step",
+    "C16_contain",
+    "C16_contain_refuted",
+    "C16_reverse_surface",
+    "C16_reverse_surface_exact",
+    "C16_reverse_surface_geometry",
+    "C16_reverse_material",
+    "C16_reverse_universe",
+    "C16_reverse_complement",
+    "C16_reverse_complement_geometry",
+    "C16_reverse_refuted",
+    "C16_reverse_partial",
+    "C16_universe_unique",
+    "C16_universe_partial",
+    "C16_universe_refuted",
+    "C16_universe_setUniverse",
 ]
 
 KINDS = links.KINDS
